@@ -117,6 +117,69 @@ func runParent(r *ev.Run) {
 			r.Violation(parts[0], parts[1], br)
 		}
 	}
+	// ---- (2b') controlled schedules: the scenarios of (2) under schedules chosen by the monitor ----
+	{
+		spats := []string{"same-output", "kv-ww", "kv-rw", "kv-rr", "select", "mixed", "balance-cold", "disjoint", "play"}
+		nScen, perScen := r.N(3, 24), r.N(48, 240)
+		type sres struct {
+			pat string
+			c   childRes
+		}
+		out := make(chan sres, len(spats))
+		for pi, pat := range spats {
+			go func(pi int, pat string) {
+				per := perScen
+				if pat == "play" {
+					per = perScen / 3 // a block play blocks on the state lock: every decision costs a grace period
+				}
+				out <- sres{pat, spawn("sched", fmt.Sprintf("%s/%d", pat, per), nScen, r.Seed*500+int64(pi), 20*time.Minute)}
+			}(pi, pat)
+		}
+		for range spats {
+			sr := <-out
+			pat, c := sr.pat, sr.c
+			if !judgeChild(r, c, "sched/"+pat) {
+				continue
+			}
+			var rep schedReport
+			if json.Unmarshal(c.data, &rep) != nil {
+				r.Inconclusive("sched child " + pat + " wrote no result")
+				continue
+			}
+			if rep.Hung {
+				r.Violation("deadlock|scheduled-requests-blocked-forever", "under a controlled schedule no request could advance although the controller withheld none: "+rep.HungDetail, rep)
+				continue
+			}
+			r.Evals(rep.Schedules)
+			r.Shape(fmt.Sprintf("sched|%s|%d|%d", pat, rep.Distinct, len(rep.Outcomes)))
+			r.Count("sched.scenarios", rep.Scenarios)
+			r.Count("sched.schedules", rep.Schedules)
+			r.Count("sched.schedules."+pat, rep.Schedules)
+			r.Count("sched.schedules.systematic", rep.Systematic)
+			r.Count("sched.schedules.random", rep.Random)
+			r.Count("sched.schedules.distinct", rep.Distinct)
+			r.Count("sched.schedules.with-preemption", rep.Preempted)
+			r.Count("sched.schedules.fully-audited", rep.FullAudits)
+			r.Count("sched.schedules.abandoned", rep.Unfinished)
+			r.Count("sched.scenarios.bounded-space-exhausted", rep.Exhausted)
+			r.Count("sched.released-request-blocked-on-a-real-lock", rep.Blocked)
+			r.Count("sched.contention-refusals", rep.Contention)
+			r.Count("sched.outcome-vectors."+pat, len(rep.Outcomes))
+			for p, n := range rep.Points {
+				r.Count("sched.yield."+p, n)
+			}
+			if rep.PorcUnknown > 0 {
+				r.Inconclusive(fmt.Sprintf("porcupine timed out on %d controlled schedules of pattern %s", rep.PorcUnknown, pat))
+			}
+			for _, p := range rep.Problems {
+				parts := strings.SplitN(p, " ## ", 2)
+				if len(parts) < 2 {
+					parts = append(parts, "")
+				}
+				r.Violation(parts[0], parts[1]+"\n(found under a controlled schedule)\n"+strings.Join(rep.Witness, "\n"), rep)
+			}
+		}
+	}
 	// ---- (2c) a producing node: own blocks through the real miner while clients submit through the real Chain ----
 	for bi := 0; bi < r.N(2, 8); bi++ {
 		mode := []string{"producer", "receiver"}[bi%2]
@@ -171,6 +234,12 @@ func runParent(r *ev.Run) {
 	r.Floor("bursts.key", 200)
 	r.Floor("bursts.select", 200)
 	r.Floor("receiver.rounds", 20)
+	r.Floor("sched.schedules", 800)
+	r.Floor("sched.schedules.with-preemption", 500)
+	r.Floor("sched.schedules.distinct", 600)
+	for _, p := range []string{"dotx:before-trylock", "dotx:after-trylock", "dotx:after-pool-check", "dotx:after-kv-check", "dotx:after-apply", "dotx:after-write", "dotx:before-unlock", "select:start", "select:after-cache", "select:table-item", "balance:after-cache-miss"} {
+		r.Floor("sched.yield."+p, 50)
+	}
 	r.Floor("receiver.peer-blocks", 40)
 	r.Floor("producer.rounds", 20)
 	r.Floor("producer.own-blocks", 40)
